@@ -17,6 +17,7 @@ import (
 	"github.com/ozontech/file.d/pipeline"
 	"github.com/ozontech/file.d/plugin/action/join"
 	"github.com/ozontech/file.d/plugin/action/join_template"
+	"github.com/ozontech/file.d/plugin/action/join_template/ascii"
 	"github.com/ozontech/file.d/plugin/action/join_template/template"
 	"github.com/ozontech/file.d/plugin/input/k8s"
 	"github.com/ozontech/file.d/plugin/input/fake"
@@ -51,6 +52,8 @@ func init() {
 	execs["c15.jt"] = execC15JT
 	execs["c15.k8s"] = execC15K8s
 	execs["c15.pipe"] = execC15Pipe
+	execs["c15.ascii"] = execC15Ascii
+	execs["c15.tpl"] = execC15Tpl
 	gens["C15"] = genC15
 }
 
@@ -545,6 +548,12 @@ var c15TplLines = []string{
 	"Unhandled exception. System.NullReferenceException: x", "  unhandled EXCEPTION", "   at Foo.Bar() in /x.cs:line 1", " ---> System.Exception: y",
 	"   --- End of inner exception stack trace ---", "System.IO.IOException: z", ".Exception:", "x.Exception:", "at", " at ", "<autogenerated>:1", "a.b(c)", "(a).b()", ").x()",
 	"goroutine x [", "goroutine 12 ", ".go:", ".go:x", "panic 0x", "panic0xg", "created by ", "===", "WARNING: DATA RAC",
+	// first / last members and outside neighbours of the classes the fast-path checks use
+	"panic(0xf6afc0, 0xd7c240)", "panic(0xa6afc0, 0x1)", "panic(0x06afc0, 0x1)", "panic(0x9c, 0x1)", "panic({0xf1, 0x2})",
+	"panic(0xg1)", "panic(0x`1)", "panic(0x/1)", "panic(0x:1)", "panic(0x,1)", "panic(0xF1)",
+	"x.go:0", "x.go:9", "x.go:/", "x.go::", "goroutine 0 [x", "goroutine 9 [x", "goroutine / [x", "goroutine : [x",
+	"\r", "\f", " \r", "a.z()", "A.Z()", "_._()", "@.a()", "[.a()", "`.a()", "{.a()", "a0.b9()", "a/.b()", "a:.b()",
+	"UNHANDLED EXCEPTION", "unhandled exceptioN", "Unhandled@exception", "--- END OF", "--- end of", "zException:", "ZException:", "9Exception:", "_Exception:", "/Exception:", "{Exception:",
 }
 
 func genC15JT(w *bufio.Writer, rng *hx.Rng, tier string) {
@@ -650,7 +659,134 @@ func genC15JT(w *bufio.Writer, rng *hx.Rng, tier string) {
 	}
 }
 
+// ---------------------------------------------------------------- join_template classifiers
+//
+//	c15.ascii <helper>   → the real ascii helper on every byte 0..255 (ToLower: the byte it returns)
+//	c15.tpl <value>      → StartCheck / ContinueCheck (before Negate) of go_panic, cs_exception,
+//	                       go_data_race on the value: 6 bits
+
+var c15AsciiHelpers = []struct {
+	name string
+	f    func(byte) bool
+}{
+	{"IsSpace", ascii.IsSpace}, {"IsDigit", ascii.IsDigit}, {"IsHexDigit", ascii.IsHexDigit},
+	{"IsLowerCaseLetter", ascii.IsLowerCaseLetter}, {"IsUpperCaseLetter", ascii.IsUpperCaseLetter},
+	{"IsLetter", ascii.IsLetter}, {"IsLetterOrUnderscore", ascii.IsLetterOrUnderscore},
+	{"IsLetterOrUnderscoreOrDigit", ascii.IsLetterOrUnderscoreOrDigit},
+}
+
+func execC15Ascii(t *hx.Toks) string {
+	name := t.Next()
+	if t.Err != nil || !t.Done() {
+		return "bad-case"
+	}
+	var sb strings.Builder
+	if name == "ToLower" {
+		for c := 0; c < 256; c++ {
+			fmt.Fprintf(&sb, "%d ", ascii.ToLower(byte(c)))
+		}
+		return strings.TrimSpace(sb.String())
+	}
+	for _, h := range c15AsciiHelpers {
+		if h.name == name {
+			for c := 0; c < 256; c++ {
+				sb.WriteString(hx.B(h.f(byte(c))) + " ")
+			}
+			return strings.TrimSpace(sb.String())
+		}
+	}
+	return "bad-case"
+}
+
+var c15TplNames = []string{"go_panic", "cs_exception", "go_data_race"}
+
+func execC15Tpl(t *hx.Toks) string {
+	v := string(t.Bytes())
+	if t.Err != nil || !t.Done() {
+		return "bad-case"
+	}
+	var out []string
+	for _, name := range c15TplNames {
+		tp, err := template.InitTemplate(name)
+		if err != nil {
+			return "bad-case"
+		}
+		out = append(out, hx.B(tp.StartCheck(v)), hx.B(tp.ContinueCheck(v)))
+	}
+	return strings.Join(out, " ")
+}
+
+// frames in which ONE byte decides a character class or a literal of a fast-path check:
+// the byte at `\x00` is replaced by every byte 0..255
+var c15TplFrames = []string{
+	// go_panic continue: panic address `panic.+0x[0-9,a-f]+`
+	"panic(0x\x006afc0, 0xd7c240)", "panic({0x\x00, 0x1})", "panic\x000x1", "panic(0\x00f1)", "runtime.panic 0x\x00",
+	// line number `\.go:[0-9]+`, goroutine id `goroutine [0-9]+ \[`
+	"/app/main.go:\x00", "x.go\x001", "goroutine \x00 [running]:", "goroutine 1\x00 [running]:", "goroutine 12\x00[x", "goroutine 7 \x00",
+	// only spaces `^\s*$`
+	"\x00", "  \x00", "\x00\t", " \x00 \n",
+	// call `[A-Za-z_]+[A-Za-z0-9_]*\)?\.[A-Za-z0-9_]+\(.*\)`
+	"pkg\x00fn(x)", "pkg.f\x00(x)", "pkg.\x00(x)", "pk\x00.fn(x)", "p\x001.fn()", "\x0012.fn()", "(*T\x00.m()", "pkg.fn(x\x00", "pkg.fn\x00x)",
+	// created by `created by .*\.`, prefixes and literals
+	"created by a\x00b", "created by\x00a.b", "\x00signal SIGSEGV", "[signa\x00", "panic\x00 x", "\x00panic: x", "fatal error\x00", "http: panic servin\x00", "<autogenerated>\x001",
+	// cs_exception
+	"\x00at x", " at\x00x", "\x00 at x", "a\x00 x", "\x00--->", " ---\x00", "\x00Exception:", "\x00.Exception:", "a\x00Exception:", "Sys\x00tem.IO\x00.Exception:",
+	// go_data_race
+	"WARNING: DATA RAC\x00", "\x00WARNING: DATA RACE", "=================\x00", "\x00==================",
+}
+
+// literals compared case-insensitively: every position replaced by every byte
+var c15TplFolded = []string{"Unhandled exception", "  unhandled exception. x", "--- End of", "\t--- end of inner"}
+
+func c15TplLine(w *bufio.Writer, v []byte) {
+	fmt.Fprintf(w, "c15.tpl %s\n", hx.Enc(v))
+}
+
+func genC15Tpl(w *bufio.Writer, rng *hx.Rng, tier string) {
+	for _, h := range c15AsciiHelpers {
+		fmt.Fprintf(w, "c15.ascii %s\n", h.name)
+	}
+	fmt.Fprintf(w, "c15.ascii ToLower\n")
+	for _, f := range c15TplFrames {
+		for c := 0; c < 256; c++ {
+			c15TplLine(w, []byte(strings.ReplaceAll(f, "\x00", string([]byte{byte(c)}))))
+		}
+	}
+	for _, f := range c15TplFolded {
+		for k := 0; k < len(f); k++ {
+			for c := 0; c < 256; c++ {
+				v := []byte(f)
+				v[k] = byte(c)
+				c15TplLine(w, v)
+			}
+		}
+	}
+	// the line pool of the join_template sequences, pairs of them, and random cuts / splices
+	for _, a := range c15TplLines {
+		c15TplLine(w, []byte(a))
+	}
+	nrand := 3000
+	if tier == "thorough" {
+		nrand = 60000
+	}
+	edge := []byte("/09:@AFGZ[_`afgz{ ,.()\t\n\r\f\\x")
+	for i := 0; i < nrand; i++ {
+		v := []byte(c15TplLines[rng.Intn(len(c15TplLines))])
+		if rng.Chance(1, 2) {
+			v = append(v, c15TplLines[rng.Intn(len(c15TplLines))]...)
+		}
+		for k := rng.Intn(3); k > 0 && len(v) > 0; k-- {
+			v[rng.Intn(len(v))] = edge[rng.Intn(len(edge))]
+		}
+		if rng.Chance(1, 6) && len(v) > 0 {
+			v = v[rng.Intn(len(v)):]
+		}
+		c15TplLine(w, v)
+	}
+}
+
 func genC15(w *bufio.Writer, rng *hx.Rng, tier string) {
+	genC15Tpl(w, rng, tier)
 	genC15Join(w, rng, tier)
 	genC15JT(w, rng, tier)
 	genC15K8s(w, rng, tier)
